@@ -7,7 +7,7 @@ IDS="$*"
 rc=0
 for id in $IDS; do
   start=$(date +%s)
-  ./check "$id" --tier "$TIER" > "/tmp/verif_$id.log" 2>&1; code=$?
+  timeout ${VERIF_CHECK_TIMEOUT:-7200} ./check "$id" --tier "$TIER" > "/tmp/verif_$id.log" 2>&1; code=$?
   echo "$id exit=$code $(($(date +%s)-start))s $(grep -c '^VIOLATION' /tmp/verif_$id.log) violations | $(tail -1 /tmp/verif_$id.log | cut -c1-200)"
   [ $code -eq 0 ] || rc=1
 done
